@@ -73,7 +73,10 @@ def runJson (req : Json) : Except String Json := do
     let o : Json := match op, r.2 with
       | .transfer o _ _, some out =>
         let want := compileNow cfg w o.norm
-        Json.mkObj [("kind", out.kind), ("stale", match out.model? with | some m => decide (m ≠ want) | none => false)]
+        -- the folders enter the compile only through the sources read from them
+        let same (a b : Built) : Bool :=
+          a.version == b.version && a.sources == b.sources && { a.opts with libs := [] } == { b.opts with libs := [] }
+        Json.mkObj [("kind", out.kind), ("stale", match out.model? with | some m => !(same m want) | none => false)]
       | .crashedTransfer o now size _, _ =>
         -- what the interrupted call was doing (it never returns): outcome of the same call uninterrupted
         Json.mkObj [("kind", (transfer cfg w o now size).2.kind), ("crashed", true)]
